@@ -147,24 +147,36 @@ func ValidateFilterRefs(conf *Root) error {
 			return false, nil
 		}
 	}
-	for i := range conf.Integrations {
-		for j := range conf.Integrations[i].Event.Inputs {
-			ok, err := check(&conf.Integrations[i].Event.Inputs[j].Filter.Ref)
+	// A filter_ref may sit on a component of a tuple input as well:
+	// column definitions are built from Event.Selected(), which descends
+	// into Components, and Filter.Accept evaluates their filters.
+	var checkInputs func(i int, inputs []dig.Input) error
+	checkInputs = func(i int, inputs []dig.Input) error {
+		for j := range inputs {
+			ok, err := check(&inputs[j].Filter.Ref)
 			if err != nil {
 				return err
 			}
-			if !ok {
-				continue
+			if ok {
+				var (
+					refName = inputs[j].Filter.Ref.Integration
+					refCol  = inputs[j].Filter.Ref.Column
+				)
+				conf.Integrations[i].Dependencies = append(
+					conf.Integrations[i].Dependencies,
+					refName,
+				)
+				igs[refName].Table.Index = append(igs[refName].Table.Index, []string{refCol})
 			}
-			var (
-				refName = conf.Integrations[i].Event.Inputs[j].Filter.Ref.Integration
-				refCol  = conf.Integrations[i].Event.Inputs[j].Filter.Ref.Column
-			)
-			conf.Integrations[i].Dependencies = append(
-				conf.Integrations[i].Dependencies,
-				refName,
-			)
-			igs[refName].Table.Index = append(igs[refName].Table.Index, []string{refCol})
+			if err := checkInputs(i, inputs[j].Components); err != nil {
+				return err
+			}
+		}
+		return nil
+	}
+	for i := range conf.Integrations {
+		if err := checkInputs(i, conf.Integrations[i].Event.Inputs); err != nil {
+			return err
 		}
 		for j := range conf.Integrations[i].Block {
 			ok, err := check(&conf.Integrations[i].Block[j].Filter.Ref)
